@@ -310,7 +310,7 @@ class HttpHeaderFieldValueExpectStaple(FieldsSemicolonSeparated):
     )
 
 
-class ContentSecurityPolicyDirectiveType(StringEnumParsable, enum.Enum):
+class ContentSecurityPolicyDirectiveType(StringEnumCaseInsensitiveParsable, enum.Enum):
     BASE_URI = FieldValueStringEnumParams(
         code='base-uri',
     )
